@@ -398,7 +398,9 @@ def _from_et(e):
         tag = tag.split("}", 1)[1]
     t = T(tag)
     for k, v in e.attrib.items():
-        if "}" in k:
+        if k.startswith("{http://www.w3.org/XML/1998/namespace}"):
+            k = "xml:" + k.split("}", 1)[1]          # the predeclared prefix: keeps xml:lang apart from lang when a replay document is re-read
+        elif "}" in k:
             k = k.split("}", 1)[1]
         t.attrs[k] = v
     kids = list(e)
